@@ -134,13 +134,17 @@ theorem save_keeps_db_ok (db : WfStore.DB) (w : WF) (hdb : db.ok) (hf : w.fresh)
   rw [saveWf_eq db w hdb hf hw]
   exact savedDB_ok db w hdb
 
-/-- **The deep-copy builder reproduces the structure and carries no persistent id over.** -/
+/-- **The deep-copy builder reproduces the structure, with every step in its initial state, and carries no persistent id over.** -/
 theorem builder_copy_no_ids (db : WfStore.DB) (w : WF) (hdb : db.ok) (hf : w.fresh) (hw : w.wf) :
-    ∃ c, copyWf (saveWf db w).1 db.next = some c ∧ c = w ∧
+    ∃ c, copyWf (saveWf db w).1 db.next = some c ∧ c = w.initial ∧
       c.pid = none ∧ (∀ p ∈ c.ports, p.pid = none) ∧ (∀ s ∈ c.steps, s.pid = none) := by
   obtain ⟨h1, _, h3⟩ := load_save_workflow db w hdb hf hw
-  refine ⟨w, ?_, rfl, hf.1, hf.2.1, hf.2.2⟩
-  simp only [copyWf, h1, Option.map_some, h3]
+  refine ⟨w.initial, ?_, rfl, hf.1, hf.2.1, ?_⟩
+  · simp only [copyWf, h1, Option.map_some, h3]
+  · intro s hs
+    simp only [WF.initial, List.mem_map] at hs
+    obtain ⟨s0, hs0, rfl⟩ := hs
+    exact hf.2.2 s0 hs0
 
 def w0 : WF :=
   { name := "wf", params := [("config", 7)],
@@ -152,7 +156,7 @@ def w0 : WF :=
 /-- not vacuous: a concrete workflow, saved after another one, round-trips with ids 6.. and the copy equals the original -/
 example :
     let db := (saveWf WfStore.DB.empty w0).1
-    loadWf (saveWf db w0).1 db.next = some (saveWf db w0).2 ∧ copyWf (saveWf db w0).1 db.next = some w0 ∧
+    loadWf (saveWf db w0).1 db.next = some (saveWf db w0).2 ∧ copyWf (saveWf db w0).1 db.next = some w0.initial ∧
       ((saveWf db w0).2.steps.map (·.pid)) = [some 11, some 12] := by
   decide
 
